@@ -148,6 +148,17 @@ static Verdict run_c16(const Case &c)
   // kind == key: a candidate key string
   bytes sb = c.getb("s");
   std::string s(sb.begin(), sb.end());
+  if (s.find('\0') != std::string::npos && s.size() == 24)
+  {
+    // 24 bytes with a NUL among them: not a C string, so -k cannot deliver it, but the validator takes (pointer,
+    // length) and NUL is not a base64 character
+    v.nontrivial = true;
+    v.distinct = fnv64("k0" + hex(sb));
+    v.classes.push_back("candidate_with_embedded_NUL");
+    if (wapi::b64_valid_key(s))
+      return Verdict::fail("validator accepts 24 bytes that contain a 0x00 byte (candidate " + hex(sb) + ")");
+    return v;
+  }
   s = s.substr(0, s.find('\0')); // argv strings end at the first NUL
   bool shape = s.size() == 24 && s[22] == '=' && s[23] == '=';
   for (size_t i = 0; shape && i < 22; i++)
@@ -296,6 +307,9 @@ static Case gen_c16()
   case 11: // '==' first then alphabet
     s = "==" + s.substr(0, 22);
     break;
+  case 17: // a NUL byte among the 24 (the validator is given pointer and length)
+    s[(size_t)g::range(0, 24)] = '\0';
+    break;
   case 12: // swapped padding position
     std::swap(s[21], s[22]);
     break;
@@ -418,6 +432,18 @@ static void fixed_c16(Ctx &ctx)
         c.setb("s", bytes(s.begin(), s.end()));
         eval_fixed(*p, ctx, c);
       }
+  // a NUL byte at every position of the valid key
+  for (int pos = 0; pos < 24; pos++)
+  {
+    if (!mine(ctx, i++))
+      continue;
+    std::string s = base;
+    s[pos] = '\0';
+    Case c;
+    c.set("kind", "key");
+    c.setb("s", bytes(s.begin(), s.end()));
+    eval_fixed(*p, ctx, c);
+  }
   // every length up to 1124 (and 24 + 2^16): a valid key with n more alphabet characters behind it, in front of it, or
   // between its 22 data characters and the padding - whatever the validator does with the length it is given
   // (strlen of the candidate), only 24 characters can be a key
